@@ -1168,43 +1168,46 @@ def simp_cmp_bijective_op(expr_simp, expr):
 
 
 def simp_subwc_cf(_, expr):
-    """SUBWC_CF(A, B, SUB_CF(C, D)) => SUB_CF({A, C}, {B, D})"""
+    """SUBWC_CF(A, B, SUB_CF(C, D)) => SUB_CF({C, A}, {D, B})"""
     if not expr.is_op('FLAG_SUBWC_CF'):
         return expr
     op3 = expr.args[2]
     if not op3.is_op("FLAG_SUB_CF"):
         return expr
 
-    op1 = ExprCompose(expr.args[0], op3.args[0])
-    op2 = ExprCompose(expr.args[1], op3.args[1])
+    # The borrow comes from the low words
+    op1 = ExprCompose(op3.args[0], expr.args[0])
+    op2 = ExprCompose(op3.args[1], expr.args[1])
 
     return ExprOp("FLAG_SUB_CF", op1, op2)
 
 
 def simp_subwc_of(_, expr):
-    """SUBWC_OF(A, B, SUB_CF(C, D)) => SUB_OF({A, C}, {B, D})"""
+    """SUBWC_OF(A, B, SUB_CF(C, D)) => SUB_OF({C, A}, {D, B})"""
     if not expr.is_op('FLAG_SUBWC_OF'):
         return expr
     op3 = expr.args[2]
     if not op3.is_op("FLAG_SUB_CF"):
         return expr
 
-    op1 = ExprCompose(expr.args[0], op3.args[0])
-    op2 = ExprCompose(expr.args[1], op3.args[1])
+    # The borrow comes from the low words
+    op1 = ExprCompose(op3.args[0], expr.args[0])
+    op2 = ExprCompose(op3.args[1], expr.args[1])
 
     return ExprOp("FLAG_SUB_OF", op1, op2)
 
 
 def simp_sign_subwc_cf(_, expr):
-    """SIGN_SUBWC(A, B, SUB_CF(C, D)) => SIGN_SUB({A, C}, {B, D})"""
+    """SIGN_SUBWC(A, B, SUB_CF(C, D)) => SIGN_SUB({C, A}, {D, B})"""
     if not expr.is_op('FLAG_SIGN_SUBWC'):
         return expr
     op3 = expr.args[2]
     if not op3.is_op("FLAG_SUB_CF"):
         return expr
 
-    op1 = ExprCompose(expr.args[0], op3.args[0])
-    op2 = ExprCompose(expr.args[1], op3.args[1])
+    # The borrow comes from the low words
+    op1 = ExprCompose(op3.args[0], expr.args[0])
+    op2 = ExprCompose(op3.args[1], expr.args[1])
 
     return ExprOp("FLAG_SIGN_SUB", op1, op2)
 
